@@ -71,3 +71,9 @@ CLAIMS["C07"] = (
  "Trusted: go/ssa (generic instantiations included); the parser is single-threaded per parse.",
  "static analysis: typestate/pairing on SSA (defer + dominance), closure free-variable rule for cached callbacks, call-order and error-propagation checks",
 )
+CLAIMS["C11"] = (
+ "other",
+ "Panic-freedom obligations on the input-facing generator code: every explicit panic site of the generation path (17 packages) is the default of an exhaustive switch over a closed constant set, an exported IR helper reachable only from templates (text/template converts the panic into an error; checked by who-references analysis on SSA), or has a reviewed justification; every compiler-unproven bounds check on a text operand (string/[]byte/[]rune) is discharged by a dominating guard or a reviewed entry; every function of openapi/parser and jsonschema that can return (nil, nil) is enumerated from its (possibly defer-spilled) constant returns and every dereference of such a result — also after it was stored in a map and ranged — is dominated by a nil test. A new panic site, unproven text index or unchecked nullable result is a violation until triaged. Termination time, memory, stack depth and position correctness are NOT decided; bounds checks on slices of IR objects are out of scope.",
+ "Trusted: compiler check_bce as enumerator; reviewed table (50 generator-path entries); text/template safeCall semantics.",
+ "static analysis: compiler-enumerated bounds obligations + guard recogniser, explicit-panic enumeration with exhaustive-switch and who-references discharge, type-directed nilness rule on SSA",
+)
